@@ -135,6 +135,7 @@ pub fn run_c01(ctx: &mut Ctx, known: &Known) {
         null_members_missing_path(ctx, "C01");
         big_identifiers_twice(ctx, "C01");
         rows_with_untabulated_entry(ctx, "C01");
+        big_needle_sets(ctx, "C01");
     }
     // corpus first
     for (name, c) in corpus_cases() {
